@@ -48,6 +48,12 @@ CHECKS["C04"] = dict(
     note="Trusted: TLC, attribute extraction from handler objects. Identifiers contain no tag text. Known finding D13 (SETWC/WCREQ unclaimed) is judged against the stated property and matched by verb.",
     design="§4 C04")
 
+CHECKS["C03"] = dict(
+    technique="Notify.tla model-checked by TLC (all offset/segment updates x watch/unwatch interleavings on a small block with byte-sharing and straddling items; first-byte filter refuted as control) + step records from real table pairs on both structure classes judged by TLC (C03_Judge)",
+    text="The callback multiset of every update step is specified from decoded values before/after; TLC explores every (offset, segment) on a 4-byte block with items sharing and straddling bytes and every watch/unwatch/unwatch_all order, which also proves the lemma behind the range-intersection filter. On real config/log pairs of every platform, both structure classes, histories of patches (every offset class relative to 1- and 2-byte items, full refreshes, identical rewrites, single-bit flips) interleaved with registration churn (duplicate watch, unwatch, unwatch_all) are recorded and each step judged by TLC: exactly one call per live distinct observer iff the decoded value (temperatures: stored reading) changed, correct old/new values, new block visible.",
+    note="Trusted: TLC, canonicalisation of callback values, the W3 table construction. Items outside the block (known finding D12c) are not watched.",
+    design="§4 C03")
+
 NOT_YET = {}
 
 
